@@ -944,3 +944,8 @@ VARIANTS += [
     dict(prop="C17", name="pending-length-in-a-local-stored-back", benign=True,
          edits=[dict(file=SIF, find=_c17c["find"], replace=_c17c["good"])]),
 ]
+
+VARIANTS += [
+    dict(prop="C12", name="excluded-direction-sides-swapped", expect="SHARE-excluded|zero-towards-excluded-helper",
+         edits=[dict(file="ipa-core/src/secret_sharing/replicated/mod.rs", find="            Direction::Left => Self::new(V::ZERO, v),\n            Direction::Right => Self::new(v, V::ZERO),", replace="            Direction::Left => Self::new(v, V::ZERO),\n            Direction::Right => Self::new(V::ZERO, v),")]),
+]
